@@ -658,7 +658,7 @@ func resEngine(o *Opts) {
 	var b strings.Builder
 	b.WriteString(resRequires + "\n")
 	b.WriteString("Definition cases : list rcase := [\n " + strings.Join(terms, ";\n ") + "\n].\n")
-	b.WriteString("Definition M := Eval vm_compute in res_check cases.\nPrint M.\n")
+	b.WriteString("Definition M := Eval vm_compute in res_check cases.\nOpen Scope N_scope.\nPrint M.\n")
 	writeFile(base+".v", b.String())
 	writeJSON(base+".json", all)
 	st.CasesFile, st.CasesJSON = base+".v", base+".json"
